@@ -559,8 +559,20 @@ Definition shape_ok (p : pkg) : bool :=
   forallb (fun b => block_shape_ok true b && carried_len_ok 0 b) (all_blocks p).
 
 (* guards of the refinement collect = declared *)
-Definition no_foreign (p : pkg) : bool :=
-  forallb (forallb (fun s => match vs_type s with TForeign _ => false | _ => true end)) (all_blocks p).
+(* K_enum_foreign_carry: a spec with a non-identifier (qualified) type is skipped by the walk WITHOUT
+   resetting the remembered type; that is harmless exactly when the spec after it (if any) has its own
+   values (it then sets or resets the remembered type before it is used) *)
+Fixpoint foreign_ok_block (b : cblock) : bool :=
+  match b with
+  | [] => true
+  | s :: b' =>
+      (match vs_type s, b' with
+       | TForeign _, s' :: _ => match vs_vals s' with [] => false | _ :: _ => true end
+       | _, _ => true
+       end) && foreign_ok_block b'
+  end.
+
+Definition foreign_ok (p : pkg) : bool := forallb foreign_ok_block (all_blocks p).
 
 (* no spec without a type whose expression is typed (`AB = A | B`): K_enum_implicit_type *)
 Definition no_implicit (p : pkg) : bool :=
